@@ -108,6 +108,8 @@ pub enum TxFault {
     Short(u32),
     /// serial: `Interrupted`
     Interrupted,
+    /// serial: the write accepts nothing and says so (`Ok(0)`)
+    Zero,
     /// usart / can: this many would-blocks before the unit is accepted
     WouldBlock(u32),
     /// can: accept the frame and report a displaced pending frame
@@ -126,6 +128,9 @@ pub struct TxPolicy {
     pub wb_burst: u32,
     pub short: u32,
     pub interrupted: u32,
+    /// serial: percent chance that a write is answered `Ok(0)` (nothing accepted; at most
+    /// three times in a row)
+    pub zero: u32,
     pub hard: u32,
     pub flush_err: u32,
     /// serial: percent chance that a flush call is answered `Interrupted` (retryable), and the
@@ -144,6 +149,7 @@ impl TxPolicy {
             wb_burst: 0,
             short: 0,
             interrupted: 0,
+            zero: 0,
             hard: 0,
             flush_err: 0,
             flush_intr: 0,
@@ -187,6 +193,10 @@ pub struct Wire {
     tx_wb_left: Option<u32>,
     flush_wb_left: Option<u32>,
     consec_flush_intr: u32,
+    consec_zero: u32,
+    pub tx_zero: u32,
+    /// bytes written since the last successful flush (what `bytes_to_write` reports)
+    pub unflushed: u64,
     pub tx_hard_errors: u32,
     pub tx_flush_errors: u32,
     pub tx_flush_ok_after_last_write: bool,
@@ -225,6 +235,9 @@ impl Wire {
             tx_wb_left: None,
             flush_wb_left: None,
             consec_flush_intr: 0,
+            consec_zero: 0,
+            tx_zero: 0,
+            unflushed: 0,
             tx_hard_errors: 0,
             tx_flush_errors: 0,
             tx_flush_ok_after_last_write: true,
@@ -469,6 +482,9 @@ impl Dev {
                 }
                 if self.sim.chance(pol.interrupted) {
                     return TxFault::Interrupted;
+                }
+                if pol.zero > 0 && self.tx.borrow().consec_zero < 3 && self.sim.chance(pol.zero) {
+                    return TxFault::Zero;
                 }
                 if len >= 2 && self.sim.chance(pol.short) {
                     return TxFault::Short(1 + self.sim.draw(len as u32 - 1));
@@ -857,9 +873,18 @@ impl io::Write for Dev {
                 });
                 Err(io::Error::new(io::ErrorKind::Interrupted, "sim: EINTR"))
             }
+            TxFault::Zero => {
+                w.tx_zero += 1;
+                w.consec_zero += 1;
+                drop(w);
+                self.sim.event(EV_TX, 17, buf.len() as u64, || format!("{}.serial.write({} bytes) -> Ok(0) (nothing accepted)", self.name, buf.len()));
+                Ok(0)
+            }
             TxFault::Short(n) if (n as usize) < buf.len() && n >= 1 => {
                 let n = n as usize;
                 w.bytes.extend_from_slice(&buf[..n]);
+                w.unflushed += n as u64;
+                w.consec_zero = 0;
                 w.tx_short += 1;
                 w.tx_flush_ok_after_last_write = false;
                 drop(w);
@@ -876,6 +901,8 @@ impl io::Write for Dev {
             }
             _ => {
                 w.bytes.extend_from_slice(buf);
+                w.unflushed += buf.len() as u64;
+                w.consec_zero = 0;
                 w.tx_flush_ok_after_last_write = false;
                 drop(w);
                 self.sim.event(EV_TX, 9, crate::sim::hash_bytes(0, buf), || {
@@ -941,6 +968,7 @@ impl io::Write for Dev {
             return Err(io_err(k));
         }
         w.tx_flush_ok_after_last_write = true;
+        w.unflushed = 0;
         drop(w);
         self.sim.event(EV_TX, 11, 0, || format!("{}.serial.flush -> Ok", self.name));
         Ok(())
@@ -1009,7 +1037,8 @@ impl serialport::SerialPort for Dev {
         Ok(self.rx.borrow().in_flight() as u32)
     }
     fn bytes_to_write(&self) -> serialport::Result<u32> {
-        Ok(0)
+        // what was written since the last successful flush still sits in the output queue
+        Ok(self.tx.borrow().unflushed.min(u32::MAX as u64) as u32)
     }
     /// `clear(Input)` discards what sits unread in the driver's receive buffer. Called while
     /// the receiver object is being constructed it discards nothing that matters (nothing has
